@@ -44,6 +44,8 @@ type UDPConn struct {
 	readCh                 chan *inboundData // Thread-safe
 	closeCh                chan struct{}     // Thread-safe
 	closeMutex             sync.Mutex        // Thread-safe
+	readDeadlineMutex      sync.Mutex        // Guards readDeadline and the re-arming of readTimer
+	readDeadline           time.Time         // The deadline in force, zero for none
 	bindingRefreshInterval time.Duration     // Read-only
 	allocation
 }
@@ -145,8 +147,18 @@ func (c *UDPConn) ReadFrom(p []byte) (n int, addr net.Addr, err error) {
 
 		case <-c.readTimer.C:
 			// The deadline stays exceeded for every later call until
-			// SetReadDeadline moves it: make the timer channel ready again.
-			c.readTimer.Reset(0)
+			// SetReadDeadline moves it: make the timer channel ready again -
+			// unless SetReadDeadline has moved it since this tick was produced,
+			// in which case the timer is already armed for the new deadline.
+			c.readDeadlineMutex.Lock()
+			moved := c.readDeadline.IsZero() || time.Now().Before(c.readDeadline)
+			if !moved {
+				c.readTimer.Reset(0)
+			}
+			c.readDeadlineMutex.Unlock()
+			if moved {
+				continue
+			}
 
 			// A closed socket reports that it is closed, also when an old
 			// deadline is still exceeded.
@@ -344,7 +356,14 @@ func (c *UDPConn) SetReadDeadline(t time.Time) error {
 	} else {
 		d = time.Until(t)
 	}
+	c.readDeadlineMutex.Lock()
+	if t.Equal(noDeadline()) {
+		c.readDeadline = time.Time{}
+	} else {
+		c.readDeadline = t
+	}
 	c.readTimer.Reset(d)
+	c.readDeadlineMutex.Unlock()
 
 	return nil
 }
